@@ -14,7 +14,10 @@ LenSeqs == UNION {[1..n -> MinBuf..MaxBuf] : n \in 1..MaxCalls}
 ProgOf(lens) == LET P == PrefixSums(lens)
                 IN  [k \in 1..Len(lens) |-> [j \in 1..lens[k] |-> P[k] + j]]
 
-Init == \E lens \in LenSeqs, r \in RawChoices : InitWith(ProgOf(lens), r)
+\* path X: with the deviation switched on, any non-empty set of sites; otherwise none
+XChoices(lens) == IF DevIgnoredWrite THEN (SUBSET (1..Len(lens))) \ {{}} ELSE {{}}
+
+Init == \E lens \in LenSeqs, r \in RawChoices : \E xs \in XChoices(lens) : InitWith(ProgOf(lens), r, xs)
 
 Next == WCall \/ WFinish \/ WLoop \/ SaveAgain \/ SinkAccept \/ SinkIntr \/ SinkOk0 \/ SinkErr
 
